@@ -68,3 +68,11 @@ prop("C05",
      rule="schema from the C01 generator plus a probe field probe(x: T [= default]): String whose resolver records Args; T drawn over scalars, custom scalars, enums (int / string / name internals), nested input objects, wrappers to depth 3. Non-trivial = value nesting depth >= 2 or an argument default participates; distinct by hash of (schema, type, value).",
      assumptions=EXEC_ASSUME,
      runs=[dict(test="^TestC05$", quick=dict(checks=6000), thorough=dict(checks=60000, shards=16, timeout=3000))])
+
+prop("C13",
+     level_text="generated-input search (rapid): mutation documents x resolver outcomes with deferred results (thunks) and errors at every level; every case is executed 30 times (Do, Execute, ExecutePlan in turn) and the event log of resolver starts and thunk forcings must be a concatenation of per-top-level-field blocks in CollectFields order",
+     note="events are recorded by the instrumented schema's hook; order of top-level keys comes from the reference CollectFields; repeats sample Go's per-range map iteration order",
+     technique="property-based testing (rapid) with an invariant over the recorded event history",
+     rule="mutation documents from the C01 generator (2-6 top-level fields through aliases, duplicates, fragments, inline fragments, nested selections); outcomes at ~40% of reachable positions from {nil, error, value+error, panic, thunk, failing thunk, nil thunk} (failures only in nullable positions). Non-trivial = >= 2 top-level fields and at least one thunk forced; distinct by hash of the case.",
+     assumptions=EXEC_ASSUME,
+     runs=[dict(test="^TestC13$", quick=dict(checks=1500), thorough=dict(checks=15000, shards=16, timeout=3000))])
